@@ -259,6 +259,9 @@ def run(ctx):
                             for a_, c_ in off.m.items():
                                 if isinstance(a_, tuple) and a_ and a_[0] == "saturating" and a_[1] == "Sub" and G.lin(a_[2][0]).key() == tot.key() and G.strip(a_[2][1]) == ("c", 8):
                                     o2 = o2.add(tot.add(G.Lin(8), -1), c_)
+                                elif isinstance(a_, tuple) and a_ and N(a_) == ("len", payload):
+                                    # len(self.0.payload) = payload_len(header) (C14.B4: the fat pointer's metadata) = total_size - 8 (I-BI)
+                                    o2 = o2.add(tot.add(G.Lin(8), -1), c_)
                                 else:
                                     o2 = o2.add(G.Lin(0, {a_: 1}), c_)
                             if base_t == ("asptr", payload):
